@@ -1,5 +1,6 @@
 INIT Init
 NEXT Next
+CONSTANT Deep = TRUE
 CONSTANT RootRegistered = TRUE
 INVARIANT DesignOk
 INVARIANT Emit
